@@ -432,9 +432,13 @@ def sim_apply(sim, line):
                 return None, False
         else:
             return None, False
-        # the primary ULT (and the ULT that asks) moves to pool[0] of the new scheduler: keep it private to that scheduler
+        # the primary ULT (and the ULT that asks) moves to pool[0] of the new scheduler: keep it private to that scheduler.
+        # A PRIV pool[0] that the current main scheduler lists as well is excluded: the caller is counted as blocked there,
+        # the current scheduler then never stops and the replacement never happens (reported as a candidate defect).
         p0 = sim.scheds[k]["pools"][0]
-        if (x == 0 and not sim.pools[p0]["reserved"]) or not attachable(k, x):
+        waits = x == 0 or sim.xs[x]["state"] == "run"
+        if (x == 0 and not sim.pools[p0]["reserved"]) or not attachable(k, x) or (
+                waits and sim.pools[p0]["acc"] == "priv" and p0 in sim.scheds[sim.xs[x]["main"]]["pools"]):
             sim.pools, sim.scheds = keep
             return None, False
         old = sim.xs[x]["main"]
@@ -651,7 +655,13 @@ def _differential(res, broken, exe, tie, programs, oracle, legal, keep_prefix, w
         d = _retry(D.compare, "stop", exe, lines)
         if d is None:
             continue
-        vh = D.violating_history(lines, run_impl, oracle, keep_prefix=keep_prefix, budget=budget, legal=legal)
+        hb = budget
+        if d.get("kind") == "impl-crash":
+            # the implementation died / hung at one op: nothing behind it matters, and every further run may cost a watchdog period
+            rc0, out0, _ = run_impl(lines)
+            lines = lines[:max(keep_prefix + 1, len([o for o in out0 if o.strip()]) + 1)]
+            hb = 24
+        vh = D.violating_history(lines, run_impl, oracle, keep_prefix=keep_prefix, budget=hb, legal=legal)
         if vh:
             small, why = vh
             rc, out_c, err = run_impl(small)
@@ -666,7 +676,7 @@ def _differential(res, broken, exe, tie, programs, oracle, legal, keep_prefix, w
                 if legal and not legal(ls):
                     return False
                 return _retry(D.compare, "stop", exe, ls) is not None
-            small = D.ddmin(lines, still, keep_prefix=keep_prefix, budget=budget)
+            small = D.ddmin(lines, still, keep_prefix=keep_prefix, budget=hb)
             rc, out_c, err = run_impl(small)
             pending = {"stop": "lines", "correspondence": tie, "ops": small, "disagreement": _retry(D.compare, "stop", exe, small) or d,
                        "impl_output": out_c[:60]}
